@@ -10,7 +10,10 @@
 //	        and a round trip ("rt") and a determinism ("det") event are recorded; then every case is decoded into the
 //	        real type ("dec": accepted, re-encoding, generic decoder's verdict, allocation, panic) and, where the type has
 //	        a synchronous entry point (consensus message handler, staking transaction converter, log data decoder, header
-//	        field extractors, disk readers), the same bytes are driven through it.
+//	        field extractors, disk readers), the same bytes are driven through it.  Large inputs arrive as descriptors
+//	        (big.go) and are decoded by DecodeBytes, by a stream without input limit and by the generic decoder ("big").
+//	        Every decode records its allocation together with the bytes the decoder consumed; accepted objects of the
+//	        hashable types record a digest of their Hash()/Size() and that of a fresh object built from the re-encoding.
 package rlpdrv
 
 import (
@@ -39,11 +42,12 @@ type genSpec struct {
 	K int `json:"k"`
 }
 type behaviour struct {
-	Ty    string   `json:"ty"`
-	Gen   *genSpec `json:"gen"`
-	Seed  *int64   `json:"seed"` // seed the object was generated with (defaults to the run's seed)
-	Rnd   int      `json:"rnd"`  // number of driver-side random mutations of the object's encoding
-	Cases []kase   `json:"cases"`
+	Ty    string    `json:"ty"`
+	Gen   *genSpec  `json:"gen"`
+	Seed  *int64    `json:"seed"` // seed the object was generated with (defaults to the run's seed)
+	Rnd   int       `json:"rnd"`  // number of driver-side random mutations of the object's encoding
+	Cases []kase    `json:"cases"`
+	Big   []bigDesc `json:"big"` // large inputs as descriptors (big.go)
 }
 
 func ints(b []byte) []int {
@@ -109,6 +113,7 @@ func run(env *drive.Env) error {
 		return seeds(env)
 	}
 	w := newWorld()
+	warmUp()
 	var beh behaviour
 	for {
 		beh = behaviour{}
@@ -120,6 +125,21 @@ func run(env *drive.Env) error {
 	return nil
 }
 
+// warmUp runs every codec once so that the one-time costs (rlp's type cache, lazily built tables) are not charged to
+// the first measured decode of a type.
+func warmUp() {
+	for _, c := range registry {
+		catch(func() {
+			b := mustEnc(c.gen(newGen(0, c.name, 0)))
+			decode(b, c.fresh())
+			streamForm(b, c.fresh(), true)
+			streamForm(b[:len(b)/2], c.fresh(), false)
+			var v interface{}
+			decode(b, &v)
+		})
+	}
+}
+
 // seeds writes the encodings of K real objects per type together with the nodes to mutate.
 func seeds(env *drive.Env) error {
 	k := env.OptInt("k", 3)
@@ -129,7 +149,11 @@ func seeds(env *drive.Env) error {
 		if c.gen == nil {
 			continue
 		}
-		for i := 0; i < k; i++ {
+		kk := k
+		if liveTypes[c.name] && kk < len(liveStates) {
+			kk = len(liveStates)
+		}
+		for i := 0; i < kk; i++ {
 			g := newGen(env.Seed, c.name, i)
 			var b []byte
 			var err error
@@ -206,13 +230,13 @@ func streamCase(c *codec, b []byte) (acc bool, cons int, same bool, pan string) 
 	r := bytes.NewReader(b)
 	var err error
 	pan = catch(func() { err = rlp.NewStream(r, uint64(len(b))).Decode(target) })
+	cons = len(b) - r.Len() // also when the input was rejected: the prefix the decoder looked at
 	if pan != "" {
-		return false, 0, false, "stream decode: " + pan
+		return false, cons, false, "stream decode: " + pan
 	}
 	if err != nil {
-		return false, 0, false, ""
+		return false, cons, false, ""
 	}
-	cons = len(b) - r.Len()
 	same = true
 	for i := 0; i < c.nre; i++ {
 		var out []byte
@@ -235,13 +259,18 @@ func genericAccepts(b []byte) (ok bool, pan string) {
 }
 
 func runBehaviour(env *drive.Env, w *world, beh *behaviour) {
+	for i := range beh.Big {
+		runBig(env, &beh.Big[i])
+	}
 	if beh.Ty == "generic" {
 		for _, k := range beh.Cases {
 			b := toBytes(k.B)
 			var ok bool
 			var pan string
 			alloc := measure(func() { ok, pan = genericAccepts(b) })
-			env.Emit(map[string]interface{}{"ev": "gen", "ty": "generic", "b": k.B, "gacc": ok, "alloc": alloc, "pan": pan, "mut": k.Mut})
+			var v interface{}
+			s, _ := streamForm(b, &v, true)
+			env.Emit(map[string]interface{}{"ev": "gen", "ty": "generic", "b": k.B, "gacc": ok, "alloc": alloc, "cons": s.Cons, "pan": pan, "mut": k.Mut})
 		}
 		return
 	}
@@ -259,18 +288,34 @@ func runBehaviour(env *drive.Env, w *world, beh *behaviour) {
 		enc1 = roundTrip(env, c, seed, beh.Gen.K)
 	}
 	emitDec := func(b []byte, mut string, cex bool) {
-		acc, same, re, nre, alloc, _, pan := decodeCase(c, b)
-		gacc, gpan := genericAccepts(b)
+		acc, same, re, nre, alloc, target, pan := decodeCase(c, b)
+		var gacc bool
+		var gpan string
+		galloc := measure(func() { gacc, gpan = genericAccepts(b) })
 		if pan == "" && gpan != "" {
 			pan = "generic: " + gpan
 		}
+		var gv interface{}
+		gs, _ := streamForm(b, &gv, true)
 		sacc, scons, ssame, span := streamCase(c, b)
 		if pan == "" && span != "" {
 			pan = span
 		}
+		oh1, oh2 := "", ""
+		if acc && pan == "" {
+			reenc := b
+			if re != nil {
+				reenc = re
+			}
+			var hp string
+			oh1, oh2, hp = oneHash(c, target, reenc)
+			if hp != "" {
+				pan = "hash: " + hp
+			}
+		}
 		ev := map[string]interface{}{"ev": "dec", "ty": c.name, "b": ints(b), "mut": mut, "acc": acc, "same": same, "re": ints(re), "nre": nre,
-			"sacc": sacc, "scons": scons, "ssame": ssame,
-			"gacc": gacc, "alloc": alloc, "pan": pan, "cex": cex, "ent": w.entries(c.name, b, acc && pan == "")}
+			"sacc": sacc, "scons": scons, "ssame": ssame, "oh1": oh1, "oh2": oh2,
+			"gacc": gacc, "galloc": galloc, "gcons": gs.Cons, "alloc": alloc, "pan": pan, "cex": cex, "ent": w.entries(c.name, b, acc && pan == "")}
 		env.Emit(ev)
 	}
 	for _, k := range beh.Cases {
